@@ -16,7 +16,11 @@ try:
         patch = os.path.join(d, "patch.diff")
         if not os.path.exists(patch):
             continue
-        subprocess.run("git -C %s checkout -q -- . && git -C %s apply %s" % (WT, WT, patch), shell=True, check=True)
+        ap = subprocess.run("git -C %s checkout -q -- . && git -C %s apply %s" % (WT, WT, patch), shell=True)
+        if ap.returncode != 0:
+            out[sd] = "patch-does-not-apply"
+            print(sd, "patch-does-not-apply (the code it changes has moved: rebase the seed)", flush=True)
+            continue
         pid = sd[:3]
         extra = []
         meta = os.path.join(d, "meta.json")
